@@ -242,6 +242,22 @@ def analyse_loop(facts, R, path, module):
                                 vv = sym.rvalue(dd[3])
                                 if vv[0] == "agg" and vv[2] == "Some" and "Err" in render(vv) and render(outcome) in render(vv):
                                     stores.append((i, j))
+        # ... or `last_error.insert(err)` / `.replace(err)` (possibly through a `&mut Option<_>` handed to an inlined helper);
+        # `get_or_insert` keeps an earlier error and is not a store of this attempt's error
+        def _root(l, depth=0):
+            ds_ = b.defs_of(l)
+            if depth > 6 or len(ds_) != 1 or ds_[0][0] != "assign":
+                return l
+            rv_ = ds_[0][3]
+            q_ = rv_.get("ref") or (op_place(rv_["use"]) if "use" in rv_ else None)
+            if q_ is None or [e for e in q_["p"] if e != "deref"]:
+                return l
+            return _root(q_["l"], depth + 1)
+        for i, t in b.calls():
+            if t["callee"]["name"] in ("insert", "replace") and "Option" in t["callee"]["path"] and len(t["args"]) == 2:
+                p0 = op_place(t["args"][0])
+                if p0 is not None and _root(p0["l"]) == last_error_local and render(outcome) in render(sym.op(t["args"][1])):
+                    stores.append(term_pt(b, i))
         exits = return_points(b) + [term_pt(b, N)]
         w = must_cross(b, [(errT, 0)], exits, stores, after_start=False)
         R.check(stores and w is None, "last-error-kept", fn, "error recorded on every Err path",
